@@ -35,7 +35,7 @@ func (x *Exec) evalClause(e gcl.Expr, st, old *State, fr *frame, results []smt.T
 	return x.evalClauseExtra(e, st, old, fr, results, nil)
 }
 
-func (x *Exec) evalClauseExtra(e gcl.Expr, st, old *State, fr *frame, results []smt.T, callResults []smt.T) (smt.T, error) {
+func (x *Exec) evalClauseExtra(e gcl.Expr, st, old *State, fr *frame, results []smt.T, extra map[string]smt.T) (smt.T, error) {
 	env := map[string]binding{}
 	for n, b := range x.params {
 		env[n] = b
@@ -55,8 +55,8 @@ func (x *Exec) evalClauseExtra(e gcl.Expr, st, old *State, fr *frame, results []
 			env[n] = binding{results[i], res.At(i).Type()}
 		}
 	}
-	for i, r := range callResults {
-		env[fmt.Sprintf("c%d", i)] = binding{r, nil}
+	for n, r := range extra {
+		env[n] = binding{r, nil}
 	}
 	pkg := ""
 	if x.contract != nil {
@@ -570,6 +570,11 @@ func (x *Exec) evalCall(e gcl.Call, c *evalCtx) (typed, error) {
 			return tv(smt.App(BytesSort, f, args[0].t), nil), nil
 		}
 		return typed{}, fmt.Errorf("content of non-slice %s", e.Args[0])
+	case "val": // val(x): the content of a byte slice, x itself otherwise (for contracts of generic code)
+		if len(args) == 1 && args[0].t.Sort == SliceSort && (args[0].typ == nil || isByteSlice(args[0].typ)) {
+			return tv(x.content(x.curState(c), args[0].t), nil), nil
+		}
+		return args[0], nil
 	case "blen":
 		x.bytesVocab()
 		return tv(smt.App(smt.Int, "blen", args[0].t), intT), nil
